@@ -254,6 +254,20 @@ func (serv *ExchangeServer[H]) handleRangeRequest(
 			return nil, header.ErrNotFound
 		}
 
+		// the requested range ends at or below the head, yet is not served by the store,
+		// i.e. it lies below the store's tail: nothing to serve
+		if to <= head.Height() {
+			span.SetStatus(codes.Error, header.ErrNotFound.Error())
+			log.Debugw("server: requested headers not stored",
+				"from", from,
+				"to", to,
+				"currentHead",
+				head.Height(),
+			)
+			serv.metrics.rangeServed(ctx, time.Since(startTime), to-from, true)
+			return nil, header.ErrNotFound
+		}
+
 		log.Debugw("server: serving partial range",
 			"prevMaxHeight", to,
 			"newMaxHeight", head.Height()+1,
